@@ -87,6 +87,25 @@ func (c *Ctx) protoAnchors(rule string) *protoAnchors {
 	return a
 }
 
+// inlineSmall is the standard inlining policy of path rules: package-local,
+// non-exported-API helpers of moderate size are expanded in place, so that a
+// rule stated over a function's paths does not depend on whether a fragment of
+// it lives in a helper. except lists callees that must stay opaque calls.
+func inlineSmall(except ...string) func(caller *ssa.Function, call *ssa.Call, callee *ssa.Function) bool {
+	return func(caller *ssa.Function, call *ssa.Call, callee *ssa.Function) bool {
+		if PkgPathOf(caller) != PkgPathOf(callee) || len(callee.Blocks) > 40 {
+			return false
+		}
+		name := funcShort(callee)
+		for _, e := range except {
+			if e == name {
+				return false
+			}
+		}
+		return true
+	}
+}
+
 func (c *Ctx) enum(rule string, fn *ssa.Function, opts PathOpts) []*Path {
 	if c.Thorough() && opts.HeaderVisits == 0 {
 		opts.HeaderVisits = 3
@@ -273,7 +292,7 @@ func (c *Ctx) ruleRoute(a *protoAnchors) {
 	p, r := c.P, c.R
 	const rule = "C01.route"
 	send := a.send
-	paths := c.enum(rule, send, PathOpts{})
+	paths := c.enum(rule, send, PathOpts{Inline: inlineSmall(funcShort(a.collector), "(*eventlogger.clock).Now")})
 	nFound, nMiss := 0, 0
 	for _, pa := range paths {
 		if _, ok := pa.End.(*ssa.Return); !ok {
@@ -380,7 +399,7 @@ func (c *Ctx) ruleFanout(a *protoAnchors) {
 		r.Ok(rule, "fanout:range", p.InstrPos(a.rangeCall), "ranges &g.roots of the processed graph")
 	}
 	cb := a.callback
-	paths := c.enum(rule, cb, PathOpts{})
+	paths := c.enum(rule, cb, PathOpts{Inline: inlineSmall(funcShort(a.traverse))})
 	for _, pa := range paths {
 		rv := pa.RetVals()
 		if len(rv) != 1 {
@@ -509,7 +528,7 @@ func (c *Ctx) ruleStep(a *protoAnchors) {
 		r.Bad(rule, "traverse:process-once", p.InstrPos(a.procCall), "Process is not invoked on the node of the linkedNode parameter")
 	}
 
-	paths := c.enum(rule, T, PathOpts{})
+	paths := c.enum(rule, T, PathOpts{Inline: inlineSmall()})
 	rows := map[string]bool{}
 	for _, pa := range paths {
 		if _, ok := pa.End.(*ssa.Return); !ok {
